@@ -1,8 +1,10 @@
-/* c09_celtloss.c — C09: the CELT `loss_duration` counter (celt/celt_decoder.c:957, :1354) against the
-   model `Opus.SilkPlcGains.celtLossStep / celtLossGood`.  The counter is a private field, so the TU
-   #includes celt_decoder.c and drives a CELT decoder directly: random runs of concealed frames of
-   2.5/5/10/20 ms (incl. runs long enough to saturate) interleaved with decoded frames.
-     run <seed> <n> [quiet]   (quiet: only the predicate on the implementation, `W` lines)   */
+/* c09_celtloss.c — C09: the CELT concealment-state machine (celt/celt_decoder.c: `loss_duration` :957/:1354, the choice
+   between pitch-based and noise-based concealment :639, `skip_plc` :691/:1098/:1552) against the model
+   `Opus.SilkPlcGains.celtLost / celtGood / celtReset / celtLostKind`.  The fields are private, so the TU #includes
+   celt_decoder.c and drives a CELT decoder directly: random runs of concealed frames of 2.5/5/10/20 ms with start band
+   0 or 17 (incl. runs long enough to saturate), decoded frames, resets.  Which branch of celt_decode_lost ran is read
+   off `prefilter_and_fold` (set by the pitch branch :953, cleared by the noise branch :689).
+     run <seed> <n> [quiet]   (quiet: only the predicates on the implementation, `W` lines)   */
 #ifdef HAVE_CONFIG_H
 #include "config.h"
 #endif
@@ -13,9 +15,9 @@ int main(int argc, char **argv)
 {
    vrng r; long n, i; static float pcm[2 * 960]; unsigned char silence[2] = {0xFF, 0xFF};
    static const int RATES[5] = {8000, 12000, 16000, 24000, 48000};
-   long cases = 0, nw = 0; int quiet;
+   long cases = 0, nw = 0, npitch = 0, nnoise = 0; int quiet;
    vinstall_traps();
-   if (argc < 4 || strcmp(argv[1], "run")) { fprintf(stderr, "usage: c09_celtloss run <seed> <n>\n"); return 64; }
+   if (argc < 4 || strcmp(argv[1], "run")) { fprintf(stderr, "usage: c09_celtloss run <seed> <n> [quiet]\n"); return 64; }
    r.s = strtoull(argv[2], 0, 10) * 0xD1342543DE82EF95ULL + 0x632BE59BD9B4E019ULL; r.s ^= vnext(&r) >> 7;
    n = atol(argv[3]); quiet = argc >= 5 && !strcmp(argv[4], "quiet");
    for (i = 0; i < n; i++) {
@@ -23,38 +25,57 @@ int main(int argc, char **argv)
       CELTDecoder *st = (CELTDecoder *)malloc(celt_decoder_get_size(ch));
       if (!st || celt_decoder_init(st, Fs, ch) != OPUS_OK) return 2;
       for (s = 0; s < steps; s++) {
-         int LM = vbelow(&r, 4), N = (Fs / 400) << LM, before = st->loss_duration, ret;
+         int LM = vbelow(&r, 4), N = (Fs / 400) << LM, before, skip0, ret, op = vbelow(&r, 100);
          int reps = vchance(&r, 1) && i % 16 == 0 ? 1300 + vbelow(&r, 9000) : 1, k;   /* a few genuine runs to saturation */
+         if (op < 3) {
+            if (!quiet) { printf("I decskel celtreset\n"); fflush(stdout); }
+            celt_decoder_ctl(st, OPUS_RESET_STATE);
+            if (!quiet) printf("O ld=%d skip=%d\n", st->loss_duration, st->skip_plc);
+            cases++;
+            continue;
+         }
+         if (op < 12) { int sb = vchance(&r, 50) ? 17 : 0; celt_decoder_ctl(st, CELT_SET_START_BAND(sb)); }
          if (reps == 1 && vchance(&r, 8)) {
             /* most saturation cases start from a counter placed just below the cap (the field is a plain int) */
             st->loss_duration = 9900 + (int)vbelow(&r, 101); reps = 5 + vbelow(&r, 120);
          }
-         if (vchance(&r, 30)) {
-            if (!quiet) { printf("I decskel lossgood %d\n", LM); fflush(stdout); }
-            ret = celt_decode_with_ec(st, silence, 2, pcm, N, NULL, 0);
-            if (ret != N) { if (!quiet) printf("O %s\n", verr(ret)); continue; }
-            if (!quiet) printf("O ld=%d\n", st->loss_duration);
-            cases++;
-            /* the property predicate on the implementation: a decoded frame resets the counter */
-            if (st->loss_duration != 0) { nw++; printf("W lossdur | loss_duration %d after a decoded frame (was %d) | decskel lossgood %d\n", st->loss_duration, before, LM); }
+         before = st->loss_duration; skip0 = st->skip_plc;
+         if (op >= 12 && op < 45) {
+            int good = 1 + (vchance(&r, 40) ? 1 : 0);     /* single decoded frames and pairs (a pair re-enables the pitch PLC) */
+            for (k = 0; k < good; k++) {
+               before = st->loss_duration; skip0 = st->skip_plc;
+               if (!quiet) { printf("I decskel celtgood %d %d %d\n", before, skip0, LM); fflush(stdout); }
+               ret = celt_decode_with_ec(st, silence, 2, pcm, N, NULL, 0);
+               if (ret != N) { if (!quiet) printf("O %s\n", verr(ret)); continue; }
+               if (!quiet) printf("O ld=%d skip=%d\n", st->loss_duration, st->skip_plc);
+               cases++;
+               /* predicates on the implementation: a decoded frame resets the counter; two in a row re-enable the pitch PLC */
+               if (st->loss_duration != 0) { nw++; printf("W lossdur | loss_duration %d after a decoded frame (was %d) | decskel celtgood %d %d %d\n", st->loss_duration, before, before, skip0, LM); }
+               if (before == 0 && st->skip_plc != 0) { nw++; printf("W plckind | skip_plc still set after two consecutive decoded frames | decskel celtgood %d %d %d\n", before, skip0, LM); }
+            }
             continue;
          }
          for (k = 0; k < reps; k++) {
-            int show;
-            before = st->loss_duration;
-            show = !quiet && (k == 0 || k == reps - 1 || (before >= 9985 && before < 10000));
-            if (show) { printf("I decskel lossdur %d %d\n", before, LM); fflush(stdout); }
+            int show, start = st->start, noise;
+            before = st->loss_duration; skip0 = st->skip_plc;
+            show = !quiet && (k == 0 || k == reps - 1 || (before >= 9985 && before < 10000) || (before >= 24 && before < 56));
+            if (show) { printf("I decskel celtplc %d %d %d %d\n", before, skip0, start, LM); fflush(stdout); }
+            st->prefilter_and_fold = 2;                     /* neither branch leaves 2 behind */
             ret = celt_decode_with_ec(st, NULL, 0, pcm, N, NULL, 0);
-            if (show) { if (ret != N) printf("O %s\n", verr(ret)); else printf("O ld=%d\n", st->loss_duration); }
+            noise = st->prefilter_and_fold == 0;
+            if (noise) nnoise++; else npitch++;
+            if (show) { if (ret != N) printf("O %s\n", verr(ret)); else printf("O kind=%s ld=%d skip=%d\n", st->prefilter_and_fold == 0 ? "noise" : st->prefilter_and_fold == 1 ? "pitch" : "none", st->loss_duration, st->skip_plc); }
             cases++;
-            /* … and a concealed frame never decreases it nor takes it above 10000 */
-            if (ret == N && (st->loss_duration > 10000 || st->loss_duration < before) && nw < 20) {
-               nw++; printf("W lossdur | loss_duration %d -> %d after a concealed frame | decskel lossdur %d %d\n", before, st->loss_duration, before, LM);
-            }
+            if (ret != N || nw >= 40) continue;
+            /* predicates on the implementation */
+            if (st->loss_duration > 10000 || st->loss_duration < before) { nw++; printf("W lossdur | loss_duration %d -> %d after a concealed frame | decskel celtplc %d %d %d %d\n", before, st->loss_duration, before, skip0, start, LM); }
+            if ((before >= 40 || start != 0 || skip0) && !noise) { nw++; printf("W plckind | pitch-based concealment with loss_duration %d, start band %d, skip_plc %d | decskel celtplc %d %d %d %d\n", before, start, skip0, before, skip0, start, LM); }
+            if (before < 40 && start == 0 && !skip0 && noise) { nw++; printf("W plckind | noise concealment although loss_duration %d < 40, start band 0 and the pitch PLC is enabled | decskel celtplc %d %d %d %d\n", before, before, skip0, start, LM); }
+            if (noise && !st->skip_plc) { nw++; printf("W plckind | skip_plc not set after a noise-concealed frame | decskel celtplc %d %d %d %d\n", before, skip0, start, LM); }
          }
       }
       free(st);
    }
-   printf("# celtloss seed=%s decoders=%ld cases=%ld witnesses=%ld\n", argv[2], n, cases, nw);
+   printf("# celtloss seed=%s decoders=%ld cases=%ld witnesses=%ld pitch=%ld noise=%ld\n", argv[2], n, cases, nw, npitch, nnoise);
    return 0;
 }
